@@ -246,6 +246,34 @@ int main(int argc, char **argv) {
         delete_LweKey(ex);
         return H.finish();
     }
+    if (H.mode == "kslayouts") { // key-switching keys made by lweCreateKeySwitchKey for small digit layouts (few rows per source coefficient): every row carries the configured noise
+        sample_desc("kslayouts");
+        static const int LAY[5][3] = {{1, 1, 15}, {2, 1, 16}, {1, 2, 17}, {3, 1, 18}, {2, 2, 19}}; // t, basebit, -log2(alpha): one noise level per layout (it names the statistic)
+        const int nin = (int)A.i("nin", 8192), nout = (int)A.i("nout", 16);
+        for (auto &L : LAY) {
+            const int t = L[0], bb = L[1], base = 1 << bb;
+            const double alpha = std::ldexp(1.0, -L[2]);
+            LweParams *Pi = new_LweParams(nin, alpha, 1.), *Po = new_LweParams(nout, alpha, 1.);
+            LweKey *Ki = new_LweKey(Pi), *Ko = new_LweKey(Po);
+            seed_lib(seed + 31 * t + bb, 0xC07Fu);
+            lweKeyGen(Ki); lweKeyGen(Ko);
+            LweKeySwitchKey *ks = new_LweKeySwitchKey(nin, t, bb, Po);
+            lweCreateKeySwitchKey(ks, Ki, Ko);
+            Mom mk; double nontrivial_h0 = 0;
+            for (int i = 0; i < nin; i++) for (int j = 0; j < t; j++) for (int h = 0; h < base; h++) {
+                const LweSample *row = &ks->ks[i][j][h];
+                if (h == 0) { bool z = row->b == 0; for (int p = 0; p < nout && z; p++) z = row->a[p] == 0; if (!z) nontrivial_h0++; continue; }
+                uint32_t msg = (uint32_t)(h * Ki->key[i]) * ((uint32_t)1 << (32 - (j + 1) * bb));
+                mk.add((double)(int32_t)(xphase(row, Ko) - msg));
+            }
+            const std::string tag = "2^-" + std::to_string(L[2]);
+            put("ksrow/" + tag, mk);
+            H.R.stats["ksrow/" + tag + "/nontrivial_h0"] = nontrivial_h0;
+            H.R.evaluations += (uint64_t)mk.n; H.R.exhaustive_nontrivial += 1;
+            delete_LweKeySwitchKey(ks); delete_LweKey(Ki); delete_LweKey(Ko); delete_LweParams(Pi); delete_LweParams(Po);
+        }
+        return H.finish();
+    }
     if (H.mode == "keys") { // many key generations: entries in {0,1}, pooled weight
         sample_desc("keys");
         int cnt = (int)A.i("count", 256), n = (int)A.i("n", 630);
